@@ -87,7 +87,15 @@ def run(chk):
     # R11.2
     c06.r064(chk, w)
 
-    # ---- R11.3
+    quantisation(chk, w)
+    # ---- R11.4
+    error_discipline(chk, w, "R11.4", ["vaporetto::trainer::Trainer::train", "vaporetto::tag_trainer::TagTrainer::train_tag",
+                                       "vaporetto::tag_trainer::TagTrainer::train", "vaporetto::trainer::Trainer::new"], 6,
+                     err_types=("VaporettoError", "io::Error", "EncodeError", "DecodeError", "FromUtf8Error", "liblinear"))
+
+
+def quantisation(chk, w):
+    """R11.3 (also the to_int_unchecked obligation of C18)"""
     depth = w.const("vaporetto::trainer::QUANTIZE_BIT_DEPTH")
     dv = depth["value"]["int"] if depth and depth.get("value") else None
     chk.ob("R11.3", "depth=16", dv == 16, "QUANTIZE_BIT_DEPTH is %s; the predictor's weights are documented as signed 16-bit" % dv)
@@ -135,7 +143,3 @@ def run(chk):
                         seeds.append(cv)
             chk.ob("R11.3", "train_tag:positive-seed", len(seeds) == 1 and seeds[0][0] == "fl" and seeds[0][1] > 0,
                    "the running maximum of train_tag is seeded with %s; it must start from a positive constant so that the multiplier cannot be zero" % seeds, site=C.site(b))
-    # ---- R11.4
-    error_discipline(chk, w, "R11.4", ["vaporetto::trainer::Trainer::train", "vaporetto::tag_trainer::TagTrainer::train_tag",
-                                       "vaporetto::tag_trainer::TagTrainer::train", "vaporetto::trainer::Trainer::new"], 6,
-                     err_types=("VaporettoError", "io::Error", "EncodeError", "DecodeError", "FromUtf8Error", "liblinear"))
